@@ -14,7 +14,7 @@
                        first of { advertisement whose normalised id equals the key -> Found it, at that time;
                                   Cancel k -> Cancelled; time passing the deadline -> NotFound at the deadline } *)
 From Coq Require Import List NArith ZArith Arith Bool Lia.
-From AHK Require Import Lib.Res Lib.ByteStr Model.Find Proofs.FindLts Proofs.FindParse Proofs.FindTxt Proofs.FindAgg Proofs.FindNotif.
+From AHK Require Import Lib.Res Lib.ByteStr Model.Find Proofs.FindLts Proofs.FindParse Proofs.FindTxt Proofs.FindAgg Proofs.FindNotif Model.FindWorld Proofs.FindWorld.
 Import ListNotations.
 Open Scope N_scope.
 
@@ -265,6 +265,61 @@ Example c19_full_callback_nonvacuous :
      = (st0, [(idn, set_sn p1 6)], [], Some (NPoll 99)).
 Proof. exact full_callback_demo. Qed.
 
+(* ---- several controllers in one process (round 8) ------------------------------------------------- *)
+(* The aggregate Controller owns an IpController, a CoAPController (both mDNS-based) and a BleController; a
+   world is any list of controllers, each with its own configuration, state and output log.  [At j e]
+   addresses controller j, [Tick d] is the shared clock.  Whatever the interleaving, controller j ends in
+   the state and with exactly the outputs of ITS OWN history [proj j evs]: an advertisement processed by
+   another controller never completes (or loses) one of its callers, never shows up in its discoveries. *)
+Theorem controllers_in_one_process_do_not_interfere : forall evs w j c s acc,
+    nth_error w j = Some (c, s, acc) ->
+    nth_error (wrun w evs) j = Some (c, fst (run c s (proj j evs)), acc ++ snd (run c s (proj j evs))).
+Proof. exact world_proj. Qed.
+
+Theorem foreign_event_leaves_controller_alone : forall w j j' e x,
+    j <> j' -> nth_error w j = Some x -> nth_error (wstep w (At j' e)) j = Some x.
+Proof. exact world_frame. Qed.
+
+(* call_outcome_exact inside a world: call k on controller j gets exactly one outcome, prescribed by
+   controller j's own advertisements / cancellations / the clock ([expect] over [proj j evs]) *)
+Theorem world_call_outcome_exact : forall c, good c -> forall w j s acc avoid k i tau evs,
+    nth_error w j = Some (c, s, acc) ->
+    keys_ok s avoid -> fresh_evs avoid (Find k i tau :: proj j evs) ->
+    exists s' log,
+      nth_error (wrun w (At j (Find k i tau) :: evs)) j = Some (c, s', acc ++ log)
+      /\ forall o t, In (Done k o t) log <->
+           match alookup (norm c i) (discs s) with
+           | Some d => (o, t) = (Found d, now s)
+           | None => expect k (norm c i) (now s + tau) (now s) (proj j evs) = Some (o, t)
+           end.
+Proof. exact world_call_outcome. Qed.
+
+(* ---- controller.discoveries after a history (round 8) ---------------------------------------------- *)
+(* the entry of an id is the LATEST valid advertisement processed for it - there is no hypothesis on how its
+   configuration / state numbers compare with earlier ones (c# is 8 bit, the BLE s# 16 bit: they wrap, and
+   restart after a factory reset); a caller starting afterwards gets that one at once *)
+Theorem discoveries_report_latest_advertisement : forall c, good c -> forall evs s key,
+    alookup key (discs (fst (run c s evs))) = last_adv key evs (alookup key (discs s)).
+Proof. exact discs_run. Qed.
+
+Theorem find_after_history_returns_latest : forall c, good c -> forall evs s k i tau d,
+    last_adv (norm c i) evs (alookup (norm c i) (discs s)) = Some d ->
+    snd (step c (fst (run c s evs)) (Find k i tau)) = [Done k (Found d) (now (fst (run c s evs)))].
+Proof. exact find_after_history. Qed.
+
+(* IP, CoAP and BLE controllers wait for one id, only the CoAP controller processes an advertisement *)
+Example c19_world_nonvacuous :
+  map snd (wrun world0 wdemo)
+  = [[Done 1%nat NotFound 8]; [Done 2%nat (Found d1) 0]; [Done 3%nat NotFound 8]].
+Proof. exact wdemo_outs. Qed.
+
+(* state number wraps 65535 -> 1 with the same configuration number; then a factory reset *)
+Example c19_wrap_nonvacuous :
+  alookup id1 (discs (fst (run ble_cfg st0 [Adv (Some dwrap1); Adv (Some dwrap2)]))) = Some dwrap2
+  /\ alookup id1 (discs (fst (run ble_cfg st0 [Adv (Some dwrap1); Adv (Some dwrap2); Adv (Some d2); Adv (Some dwrap3)]))) = Some dwrap3
+  /\ outs_of ble_cfg st0 [Adv (Some dwrap1); Adv (Some dwrap2); Find 1 id1 8] = [Done 1%nat (Found dwrap2) 0].
+Proof. exact wrap_demo. Qed.
+
 (* ---- the unrepaired BLE controller (DESIGN section 6 l, m) ------------------------------------ *)
 Theorem ble_unrepaired_no_lost_wakeup_refuted :
     outs_of ble_orig_cfg st0 [Find 1 id1 8; Advance 5; Adv (Some d1); Advance 5] = [Done 1%nat NotFound 8]
@@ -360,3 +415,8 @@ Print Assumptions ble_unrepaired_notification_never_raises_refuted.
 Print Assumptions ble_unrepaired_no_lost_wakeup_refuted.
 Print Assumptions ble_unrepaired_callback_never_raises_refuted.
 Print Assumptions ble_registration_without_done_guard_refuted.
+Print Assumptions controllers_in_one_process_do_not_interfere.
+Print Assumptions foreign_event_leaves_controller_alone.
+Print Assumptions world_call_outcome_exact.
+Print Assumptions discoveries_report_latest_advertisement.
+Print Assumptions find_after_history_returns_latest.
